@@ -163,6 +163,38 @@ let register (reg : string -> (string list -> string) -> unit) : unit =
        | Base.Ok l -> "ok:" ^ string_of_zlist l
        | Base.Err -> "err" | Base.Panic -> "panic" | Base.OutOfFuel -> "fuel")
     | _ -> "?");
+  (* ht_block_tail <w> <h> <kmax> <samples> -> meltmp,rem,vlctmp,vlcused,more01,compat01,fuse,lastvlcbyte | zero | err
+     the state terminateOJPHMELVLC sees (after the pending-run bit and mel.tmp <<= remainingBits):
+     compat = the used bits of the two open bytes do not collide, fuse = mel.tmp | vlc.tmp,
+     lastvlcbyte = the VLC byte that follows the fused byte in memory *)
+  reg "ht_block_tail" (fun a -> match a with
+    | [w; h; k; d] ->
+      let w = zi w and h = zi h and k = zi k in
+      let data = zlist_of_string d in
+      if L.length data <> iz w * iz h || iz k <= 0 || iz k >= 31 then "err"
+      else if L.for_all (fun v -> iz (HtBlockEnc.ht_sample_val k v) = 0) data then "zero"
+      else begin
+        let cb = L.map (HtLevels.ht_sample_pack k) data in
+        let p = z_of_int (30 - (iz k - 1)) in
+        let nqy = (iz h + 1) / 2 in
+        let rows = L.init nqy (fun r -> HtBlockEnc.quad_row cb p w h (z_of_int r)) in
+        let st = HtBlockEnc.enc_streams rows in
+        let mel = L.fold_left HtMel.melw_encode HtMel.melw_init st.HtBlockEnc.st_mel in
+        let vlc = L.fold_left HtBlockBits.vlw_encode HtBlockBits.vlw_init st.HtBlockEnc.st_vlc in
+        let mel = if iz mel.HtMel.mw_run > 0 then HtMel.melw_emit mel (z_of_int 1) else mel in
+        let rem = iz mel.HtMel.mw_rem in
+        let mtmp = (iz mel.HtMel.mw_tmp) lsl rem in
+        let mel_mask = (0xFF lsl rem) land 0xFF in
+        let vt = iz vlc.HtBlockBits.vw2_tmp and vu = iz vlc.HtBlockBits.vw2_used in
+        let vlc_mask = if vu > 0 then 0xFF lsr (8 - vu) else 0 in
+        let fuse = mtmp lor vt in
+        let compat = (mel_mask lor vlc_mask) <> 0 &&
+                     (((fuse lxor mtmp) land mel_mask) lor ((fuse lxor vt) land vlc_mask)) = 0 in
+        let more = L.length vlc.HtBlockBits.vw2_buf > 1 in
+        let lastvlc = match vlc.HtBlockBits.vw2_buf with b :: _ -> iz b | [] -> 0 in
+        Printf.sprintf "%d,%d,%d,%d,%d,%d,%d,%d" (mtmp land 0xFF) rem vt vu (if more then 1 else 0) (if compat then 1 else 0) fuse lastvlc
+      end
+    | _ -> "?");
   ()
 
 let () = registrars := register :: !registrars
